@@ -102,7 +102,7 @@ CHECKS["C04"] = dict(
     engine="vsched",
     category="model_checking",
     technique="exhaustive enumeration of membership matrices x (T,E), explicit-state BFS over membership histories on the real adapter and the real server against a reference set model (with a differential oracle between histories reaching the same state), and exhaustive interleaving exploration of a broadcast racing membership changes under interval semantics",
-    text="Adapter level: all 2^9 membership matrices of 3 sockets x 3 rooms (plus variants) x all 8x8 (T,E) x {Broadcast, Sockets, FetchSockets, operator paths} against {s | (T empty or rooms(s) meets T) and rooms(s) disjoint E}, each recipient exactly once; BFS over AddAll/Delete/DeleteAll/AddSockets/DelSockets/DisconnectSockets histories covering the whole 9^3 state space with index invariants and the model in every state. Server level: 3 real server sockets over harness-implemented Engine.IO sockets, histories of Join/Leave/Disconnect/client DISCONNECT/SocketsJoin/SocketsLeave/DisconnectSockets, every (T,E) through the namespace and through each socket (sender never reached, disconnected socket in no room). Concurrent: one Broadcast(T,E) racing 1-2 membership changes, all interleavings, interval oracle.",
+    text="Adapter level: all 2^9 membership matrices of 3 sockets x 3 rooms (plus variants) x all 8x8 (T,E) x {Broadcast, Sockets, FetchSockets, operator paths} against {s | (T empty or rooms(s) meets T) and rooms(s) disjoint E}, each recipient exactly once; BFS over AddAll/Delete/DeleteAll/AddSockets/DelSockets/DisconnectSockets histories covering the whole 9^3 state space with index invariants and the model in every state. Server level (every history on the in-memory adapter and, with connection state recovery on, on the session-aware adapter, whose Broadcast is a separate code path): 3 real server sockets over harness-implemented Engine.IO sockets, histories of Join/Leave/Disconnect/client DISCONNECT/SocketsJoin/SocketsLeave/DisconnectSockets, every (T,E) through the namespace and through each socket (sender never reached, disconnected socket in no room). Concurrent: one Broadcast(T,E) racing 1-2 membership changes, all interleavings, interval oracle.",
     note="Trusted: reference set model; vsched semantics; deterministic golang-set iteration in the overlay (thread-unsafe sets only). Known finding: a socket that left its own-id room receives its own broadcasts (same as the Node.js reference).",
     design="3/C04")
 CHECKS["C08"] = dict(
